@@ -100,7 +100,7 @@ def gen(ctx):
                     sz[rnd.randrange(N)] += rnd.choice([0, 1, -1]) if min(sz) > 1 else 0
                 if L.curve_bound("mortonF", sz) <= (1 << 18):
                     boxes[N].append(tuple(sz))
-        nrand = 40
+        nrand = 10
         cap_cells = 1 << 18
     # random shapes with many cells (every conversion walks the whole box)
     for N in (1, 2, 3, 4):
@@ -200,10 +200,10 @@ def evaluate(ctx, variants, cases, full=False):
     groups = collections.OrderedDict()
     for c in cases:
         groups.setdefault((c[0], c[1]), []).append(c)
-    nm = max(1, min(C.NCPU // 2, len(mkeys) // 500 + 1))
+    nm = max(1, min(C.NCPU, len(mkeys) // 300 + 1))
     mchunks = [mkeys[k::nm] for k in range(nm)]
-    with ThreadPoolExecutor(max_workers=C.NCPU) as ex:
-        mf = [ex.submit(C.run_driver, "convcheck", ch, 0.05, 300) for ch in mchunks]
+    with ThreadPoolExecutor(max_workers=2 * C.NCPU) as ex:
+        mf = [ex.submit(C.run_driver, "convcheck", ch, 0.5, 900) for ch in mchunks]
         # batches of 400 lines: a harness that dies on most inputs (run_lines gives up after 200 deaths per call) then still
         # leaves most batches evaluated
         hf = {g: [ex.submit(C.run_lines, exes[g], [impl_line(op, full) for _, _, op in cs[k:k + 400]], 0.5, 300)
